@@ -20,7 +20,7 @@ RULE = ("a schedule = N assignments to an allow_refs parameter (coroutine functi
         "updated <=4 times - optionally returning to earlier values (A, B, A), then judged by value -, every completion order) are sampled by Hypothesis; oracle = once everything completed the value is "
         "the result of the most recent assignment, no result of assignment i is seen after any result of assignment j>i, "
         "a plain value stays until the next assignment, and no task is left pending. Non-trivial = the completion order differs "
-        "from the assignment order, or a plain assignment lands while an awaitable is pending; distinct = case hash.")
+        "from the assignment order, or a plain assignment lands while an awaitable is pending; distinct = case hash. Round 5: a coroutine whose result the parameter rejects (enumerated with newer coroutine / generator / plain assignments after it, sampled for N=4), superseded coroutines that fail in rx pipelines.")
 ASSUMPTIONS = [
     "synchronous generators are excluded (param runs them through asyncio.to_thread, whose scheduling the harness cannot own)",
     "each step is followed by 4 sleep(0) drains, enough for every ready task to run to its next await",
